@@ -36,9 +36,11 @@ fn main() {
         if line.is_empty() || line.starts_with('#') {
             continue;
         }
-        match dispatch(&args[1], line) {
-            Some(obs) => writeln!(out, "{}", obs).unwrap(),
-            None => {
+        let r = util::catch(|| dispatch(&args[1], line));
+        match r {
+            Err(msg) => writeln!(out, "HARNESS-PANIC {}", msg.replace('\n', " ")).unwrap(),
+            Ok(Some(obs)) => writeln!(out, "{}", obs).unwrap(),
+            Ok(None) => {
                 eprintln!("unknown bin {}", args[1]);
                 std::process::exit(2);
             }
